@@ -1,14 +1,15 @@
 import subprocess, sys, os
 from vlib import standard_check, ROOT
 import portcheck
+from checks import c03_filters
 
 META = {
     "property_id": "C03",
-    "technique": "Coq totality lemmas for the model's handlers (Panic = panic, failed assertion or overflow) + source site inventory (translator) proved equal to the reviewed inventory + mutated-extreme-input correspondence in debug and release builds with the oracle ok_C03 evaluated in Coq; 65.5k-call warm-up cases crossing the 16-bit sequence wrap",
+    "technique": "Coq instance invariant proved inductive over every host call (no Panic site reachable, whole histories) + Coq totality lemmas for the model's handlers (Panic = panic, failed assertion or overflow) + source site inventory (translator) proved equal to the reviewed inventory + mutated-extreme-input correspondence in debug and release builds with the oracle ok_C03 evaluated in Coq; 65.5k-call warm-up cases crossing the 16-bit sequence wrap",
     "category": "proof",
-    "text": "Every potentially panicking expression of the modelled code is an explicit Panic outcome of the Gallina model. Proved for all inputs in the stated ranges: Time +/- Duration, data set comparison and best-master selection, every master-side handler (Sync, Follow_Up, Delay_Resp, Pdelay_Resp, Pdelay_Resp_Follow_Up, Delay_Req/Pdelay_Req emission) for all timestamps in [0, 2^63 ns) and all request headers, and Announce emission for provider queues of any length and TLV size return normally. The per-function inventory of potentially panicking expressions in statime/src (393 functions, 637 sites) is regenerated from the source on every run and proved equal to the reviewed inventory, so a new or changed site anywhere in the library breaks a proof obligation. On the implementation: all scenario generators run with frames and timestamps mutated towards extremes (corrections +-2^63, lengths around 34/44/54/64/1024/2048, timestamps 0 and 2^63 ns - 1, stepsRemoved 254/255/65535, random tails), debug build with overflow checks and release build without; ok_C03 requires every call to return and the model to predict no overflow (which a release build would hide).",
+    "text": "Every potentially panicking expression of the modelled code is an explicit Panic outcome of the Gallina model. Proved for EVERY valid set-up and EVERY sequence of host calls: initialisation succeeds and no call reaches a Panic site (C03_no_host_call_sequence_panics; the instance invariant is inductive: C03_invariant_initial, C03_invariant_inductive), and the oracle ok_C03 accepts the model's own trace for every history (C03_main). Also proved per function for all inputs in the stated ranges: Time +/- Duration, data set comparison and best-master selection, every master-side handler (Sync, Follow_Up, Delay_Resp, Pdelay_Resp, Pdelay_Resp_Follow_Up, Delay_Req/Pdelay_Req emission) for all timestamps in [0, 2^63 ns) and all request headers, and Announce emission for provider queues of any length and TLV size return normally. The per-function inventory of potentially panicking expressions in statime/src (393 functions, 637 sites) is regenerated from the source on every run and proved equal to the reviewed inventory, so a new or changed site anywhere in the library breaks a proof obligation. On the implementation: all scenario generators run with frames and timestamps mutated towards extremes (corrections +-2^63, lengths around 34/44/54/64/1024/2048, timestamps 0 and 2^63 ns - 1, stepsRemoved 254/255/65535, random tails), debug build with overflow checks and release build without; ok_C03 requires every call to return and the model to predict no overflow (which a release build would hide).",
     "design_ref": "DESIGN.md section 6 (C03)",
-    "level_note": "The unbounded statement is proved: C03_no_host_call_sequence_panics (Port/Inv*.v): for every valid set-up and EVERY sequence of host calls (arbitrary octets, timestamps in [0,2^63 ns), any TLV queue, timers, BMCA, setting changes) no Panic site of the model is reached; the proof is an instance invariant (stored times and durations bounded, foreign master lists well-formed, distinct port identities, path trace length) shown inductive over step. It is a theorem about the model; the correspondence ties the model (including each Panic site) to the code. Configuration domain: log intervals in [-7, 7], at least one port (F20: PtpInstance::bmca on an instance without ports overflows 2^127 s — outside the domain, recorded in DESIGN). Filters: C13. The site inventory is token-level (translate/gen_sites.py), part of the trusted base.",
+    "level_note": "The unbounded statement is proved: C03_no_host_call_sequence_panics (Port/Inv*.v): for every valid set-up and EVERY sequence of host calls (arbitrary octets, timestamps in [0,2^63 ns), any TLV queue, timers, BMCA, setting changes) no Panic site of the model is reached; the proof is an instance invariant (stored times and durations bounded, foreign master lists well-formed, distinct port identities, path trace length) shown inductive over step. It is a theorem about the model; the correspondence ties the model (including each Panic site) to the code. Configuration domain: log intervals in [-7, 7], at least one port (F20: PtpInstance::bmca on an instance without ports overflows 2^127 s — outside the domain, recorded in DESIGN). Filters: the filter part (checks/c03_filters.py, coq/Filter/C03Filters.v: C03f_kalman_patched_no_panic, C03f_basic_no_panic; F24 repaired). The site inventory is token-level (translate/gen_sites.py), part of the trusted base.",
 }
 
 
@@ -29,4 +30,11 @@ S.translators = [_sites]
 
 
 def run(tier, seed, replay=None):
-    return standard_check(S, tier, seed, replay)
+    # filter part (KalmanFilter / BasicFilter never panic): second Spec, evidence merged into evidence/C03.json
+    if replay and c03_filters.owns(replay):
+        return c03_filters.run(tier, seed, replay)
+    rc = standard_check(S, tier, seed, replay)
+    if replay:
+        return rc
+    rc2 = c03_filters.run(tier, seed, merge_with_previous=True)
+    return rc or rc2
